@@ -78,8 +78,11 @@ pub fn gen_source(rng: &mut Rng, i: usize) -> String {
     let vis = rng.pick_str(&["pub ", "", "pub(crate) "]);
     let repr_u8 = s.contains("#[repr(u8)]");
     s.push_str(&format!("{vis}enum Tok{i}{} {{\n", if with_lt && !repr_u8 { "<'a>" } else { "" }));
-    let kws = ["fn", "let", "if", "else", "+", "-", "==", "(", ")", "while", "..", "::"];
-    let nv = rng.range(1, 6);
+    let kws = ["fn", "let", "if", "else", "+", "-", "==", "(", ")", "while", "..", "::", "struct", "enum", "match", "return", "break", "continue", "loop", "for", "in", "impl", "trait", "pub", "use", "mod",
+        "const", "static", "mut", "ref", "as", "where", "unsafe", "extern", "crate", "self", "super", "type", "dyn", "move", "async", "await", "true", "false", "->", "=>", "<=", ">=", "!=", "&&", "||", "<<", ">>",
+        "+=", "-=", "*=", "/=", "{", "}", "[", "]", ";", ",", ".", "yield", "macro", "union", "box", "try", "abstract", "final", "override", "virtual"];
+    // every 8th input is a realistically large lexer (dozens of keywords and operators): its output is far larger than a pipe buffer
+    let nv = if i % 8 == 5 { rng.range(24, 70) } else { rng.range(1, 6) };
     let mut used: Vec<&str> = vec![];
     for v in 0..nv {
         if rng.chance(1, 3) {
